@@ -310,7 +310,7 @@ func runEngineA(id string, spec Spec, tier string, seed int64) int {
 			status = "timeout"
 			inconclusive++
 			lines = append(lines, fmt.Sprintf("INCONCLUSIVE property=%s test=%s shard=%d deadline hit (no verdict)", id, p.test.Name, p.shard))
-		case strings.Contains(p.out, "INCONCLUSIVE:") && p.exit != 0 && !strings.Contains(p.out, "[rapid] failed"):
+		case strings.Contains(p.out, "INCONCLUSIVE:") && p.exit != 0 && onlyInconclusiveFailures(p.out):
 			status = "inconclusive"
 			inconclusive++
 			lines = append(lines, fmt.Sprintf("INCONCLUSIVE property=%s test=%s shard=%d %s", id, p.test.Name, p.shard, firstLineWith(p.out, "INCONCLUSIVE:")))
@@ -394,6 +394,18 @@ func runEngineA(id string, spec Spec, tier string, seed int64) int {
 		return 2
 	}
 	return 0
+}
+
+// onlyInconclusiveFailures: every rapid failure / panic line of the output is
+// itself an INCONCLUSIVE report (an infrastructure problem met inside a
+// property function), or there is no rapid failure line at all.
+func onlyInconclusiveFailures(out string) bool {
+	for _, l := range strings.Split(out, "\n") {
+		if (strings.Contains(l, "[rapid] failed") || strings.Contains(l, "[rapid] panic")) && !strings.Contains(l, "INCONCLUSIVE:") {
+			return false
+		}
+	}
+	return true
 }
 
 func designsOr(t TestSpec, tier string, checks int) int {
